@@ -403,6 +403,67 @@ def lst(vals):
     return "[" + "; ".join(str(v) for v in vals) + "]"
 
 
+def executor_outcomes() -> dict:
+    """How a CHECKING job of the executor that does not complete the step puts it back (executor.py):
+    `validate_dynamic_job` when the digest is unchanged (the statement after the last `return`), and
+    `_reset_step_to_pending`.  Fail closed on any other shape."""
+    rel = f"{CORE}/executor.py"
+    mod = parse_module(rel)
+
+    def set_state_args(call):
+        if not (isinstance(call, ast.Call) and isinstance(call.func, ast.Attribute) and call.func.attr == "set_state"
+                and isinstance(call.func.value, ast.Name) and call.func.value.id == "step"):
+            return None
+        if call.keywords or not 1 <= len(call.args) <= 2:
+            raise TranslatorError("executor: unexpected arguments of step.set_state")
+        st = call.args[0]
+        if not (isinstance(st, ast.Attribute) and isinstance(st.value, ast.Name) and st.value.id == "StepState"):
+            raise TranslatorError("executor: step.set_state with a computed state")
+        deferred = False
+        if len(call.args) == 2:
+            if not (isinstance(call.args[1], ast.Constant) and isinstance(call.args[1].value, bool)):
+                raise TranslatorError("executor: step.set_state with a computed deferred flag")
+            deferred = call.args[1].value
+        return st.attr, deferred
+
+    def db_block_calls(fn, after_last_return):
+        """The expression statements inside the `async with self.db:` blocks at the top level of fn."""
+        body = fn.body
+        if after_last_return:
+            last = max(i for i, node in enumerate(body) if any(isinstance(x, ast.Return) for x in ast.walk(node)))
+            body = body[last + 1:]
+        calls = []
+        for node in body:
+            if isinstance(node, ast.AsyncWith):
+                for stmt in node.body:
+                    if not isinstance(stmt, ast.Expr):
+                        raise TranslatorError(f"executor.{fn.name}: unexpected statement in the transaction")
+                    if isinstance(stmt.value, ast.Constant):
+                        continue
+                    calls.append(stmt.value)
+        return calls
+
+    fn = find_function(mod, "validate_dynamic_job", "Executor")
+    calls = db_block_calls(fn, True)
+    if len(calls) != 1 or set_state_args(calls[0]) is None:
+        raise TranslatorError("executor.validate_dynamic_job: the unchanged branch is not a single step.set_state")
+    unchanged = set_state_args(calls[0])
+    fn = find_function(mod, "_reset_step_to_pending", "Executor")
+    calls = db_block_calls(fn, False)
+    shape = []
+    for c in calls:
+        if set_state_args(c) is not None:
+            shape.append(("set_state",) + set_state_args(c))
+        elif isinstance(c, ast.Call) and isinstance(c.func, ast.Attribute) and isinstance(c.func.value, ast.Name) \
+                and c.func.value.id == "step" and not c.args and not c.keywords:
+            shape.append((c.func.attr,))
+        else:
+            raise TranslatorError("executor._reset_step_to_pending: unexpected statement")
+    if shape != [("reset_for_rerun",), ("delete_hash",), ("set_state", "PENDING", False)]:
+        raise TranslatorError(f"executor._reset_step_to_pending: unexpected shape {shape}")
+    return {"validate_unchanged": unchanged}
+
+
 # ---------------------------------------------------------------------------------------------
 # main
 # ---------------------------------------------------------------------------------------------
@@ -568,6 +629,13 @@ def generate():
     o.append(f"Definition revert_queue_states : list N := {lst([FS.VOLATILE.value, FS.BUILT.value, FS.OUTDATED.value])}.")
     o.append(f"Definition revert_keep_state : N := {FS.VOLATILE.value}.")
     o.append(f"Definition revert_file_state : N := {FS.PLANNED.value}.")
+    outc = executor_outcomes()
+    vst, vdf = outc["validate_unchanged"]
+    o.append("(* executor.validate_dynamic_job, digest unchanged: step.set_state(state, deferred);")
+    o.append("   executor._reset_step_to_pending (shape checked): reset_for_rerun, delete_hash, set_state(PENDING) *)")
+    o.append(f"Definition validate_unchanged_state : N := {SS[vst].value}.")
+    o.append(f"Definition validate_unchanged_deferred : bool := {'true' if vdf else 'false'}.")
+    facts["validate_unchanged"] = {"state": SS[vst].value, "deferred": bool(vdf)}
     o.append("(* tui._normalize_targets (pinned): a raw target is a directory target iff it ends in os.sep *)")
     o.append("Definition target_dir_marker : N := 47.")
     text = "\n".join(o) + "\n"
